@@ -108,6 +108,10 @@ def gen_cases(tier, rng):
         [("W", 1, 4), ("U", [(1, None)]), ("R", 1), ("W", 1, 0), ("R", 1), ("U", None), ("R", 1)],
     ]
     cases += corpus
+    # a block load: thousands of adapter writes before one update (nothing pending may be forgotten), then reads
+    nblock = 3000 if tier == "quick" else 20000
+    # (addresses from 1000 on: 98 and 99 are the harness's own marks on the chained boxes)
+    cases.append([("W", 1000 + (k % 600), k) for k in range(nblock)] + [("U", [(1601, 7)])] + [("R", a) for a in (1000, 1001, 1300, 1599, 1601, 1602)])
     al = alphabet()
     maxlen = 4 if tier == "quick" else 5
     exhaustive = 0
